@@ -815,6 +815,10 @@ pub fn c15(ctx: &Ctx) -> Collector {
     // uniform and crafted payloads (a placement that treats runs of equal codewords specially must still label them)
     run_space(&col, 6, &spaces::s_cap_families(ctx.tier.thorough()), &p, true, &no_extra);
     run_space(&col, 7, &spaces::s_cw(ctx.tier.thorough()), &p, true, &no_extra);
+    // symbols with long single-coloured stretches next to function patterns, under every mask (a mask sweep that treats
+    // a uniform group of modules as a whole must still leave the labels alone)
+    run_space(&col, 8, &spaces::s_antimask(ctx.tier.thorough()), &p, true, &no_extra);
+    run_space(&col, 9, &s_forced_mask_extreme(), &p, true, &no_extra);
     callback_view(&col, ctx.tier.thorough());
     if ctx.tier.thorough() {
         run_space(&col, 3, &spaces::s_len(Family::Ctr, 7200), &p, true, &no_extra);
